@@ -1,7 +1,7 @@
 #!/bin/sh
 # The repository's own test suite with the ASL_VERIF guard OFF, from the current working tree.
 set -e
-D=${VERIF_SCRATCH:-/var/tmp/asl-verif}/baseline-off-$$
+D=${VERIF_SCRATCH:-/var/tmp/asl-verif-main}/baseline-off-$$
 rm -rf "$D"; mkdir -p "$D"
 trap 'rm -rf "$D"' EXIT
 cmake -G Ninja -S /repo -B "$D" -DCMAKE_BUILD_TYPE=Release >/dev/null
